@@ -26,7 +26,7 @@ def radius_sites(ctx, rule="R13.1"):
                 pos = SPHERE_FUNCS[node.func.id]
                 r = kw.get("radius") or (node.args[pos] if len(node.args) > pos else None)
                 txt = ast.unparse(r) if r is not None else "<default 1.0>"
-                ctx.check(txt in RADIUS_OK, "R13.1", "%s::%s" % (m.relpath, q), "%s is called with the caller's geo_scale as sphere radius (got %s)" % (node.func.id, txt), "%s:%s" % (node.func.id, txt))
+                ctx.check(txt in RADIUS_OK, rule, "%s::%s" % (m.relpath, q), "%s is called with the caller's geo_scale as sphere radius (got %s)" % (node.func.id, txt), "%s:%s" % (node.func.id, txt))
     ctx.floor(rule, "sphere-conversion call sites", n, 8)
     # geo_scale plumbing into vario_estimate / standard_bins
     ve = prog.func("variogram/variogram.py", "vario_estimate")
